@@ -532,6 +532,83 @@ def replay(ctx, rp):
         ctx.correspond("replayed history", reqs, impl)
 
 
+def regenerate_histories(ctx, rng, nprng, quick):
+    """oracle only: subclasses that re-derive the similarity on a live object
+    (set_winter_only / set_max_delay / set_directed -> _regenerate_network): afterwards the
+    network must be the one a fresh object with the new setting has — also with
+    non_local=True and after intermediate setters."""
+    import pyunicorn.climate as C
+    from pyunicorn.core import GeoGrid
+    specs = [("Tsonis", C.TsonisClimateNetwork, "winter_only"),
+             ("Spearman", C.SpearmanClimateNetwork, "winter_only"),
+             ("PartialCorrelation", C.PartialCorrelationClimateNetwork, "winter_only"),
+             ("MutualInfo", C.MutualInfoClimateNetwork, "winter_only"),
+             ("Havlin", C.HavlinClimateNetwork, "max_delay"),
+             ("Hilbert", C.HilbertClimateNetwork, "directed")]
+    for rep in range(4 if quick else 20):
+        for name, cls, knob in specs:
+            N = rng.choice([4, 5, 6])
+            g0 = gen_grid(rng, N)
+            obs = gen_data(rng, nprng, N)
+            T = obs.shape[0]
+            grid = GeoGrid(np.arange(T, dtype=float), g0.lat_sequence(), g0.lon_sequence(),
+                           silence_level=3)
+            nl = rng.random() < 0.6
+            thr = rng.choice([0.25, 0.375, 0.5])
+            v0, v1 = {"winter_only": (False, True), "max_delay": (2, 4),
+                      "directed": (False, True)}[knob]
+            if rng.random() < 0.5:
+                v0, v1 = v1, v0
+
+            def build(v, threshold):
+                data = C.ClimateData(observable=obs.copy(), grid=grid, time_cycle=12,
+                                     silence_level=3)
+                return cls(data, threshold=threshold, non_local=nl, silence_level=3, **{knob: v})
+            hist = []
+            try:
+                with contextlib.redirect_stdout(io.StringIO()):
+                    net = build(v0, thr)
+                    if rng.random() < 0.5:
+                        t2 = rng.choice([0.3125, 0.4375, 0.5625])
+                        net.set_threshold(t2)
+                        hist.append(["set_threshold", t2])
+                        thr = t2
+                    getattr(net, "set_" + knob)(v1)
+                    hist.append(["set_" + knob, v1])
+                    if rng.random() < 0.5:
+                        d = rng.choice([0.3, 0.5, 0.7])
+                        net.set_link_density(d)
+                        hist.append(["set_link_density", d])
+                        twin = build(v1, 0.5)
+                        twin.set_link_density(d)
+                    else:
+                        twin = build(v1, thr)
+                    a = (np.asarray(net.adjacency), int(net.n_links), float(net.link_density),
+                         float(net.threshold()), np.asarray(net.similarity_measure()))
+                    b = (np.asarray(twin.adjacency), int(twin.n_links), float(twin.link_density),
+                         float(twin.threshold()), np.asarray(twin.similarity_measure()))
+            except Exception as ex:  # noqa  (estimator problems are C10's business)
+                ctx.count(f"regenerate-raises:{name}:{type(ex).__name__}")
+                continue
+            ctx.case(("regen", name, nl, str(hist), obs.tobytes().hex()[:40]), True,
+                     {"class": name, "non_local": nl, "history": hist})
+            ctx.count(f"regenerate:{name}" + (",non_local" if nl else ""))
+            if not np.allclose(a[4], b[4], rtol=1e-5, atol=1e-6):
+                continue        # the estimator itself is not reproducible (C10 / C20): not judged
+            for k, lab in enumerate(("adjacency", "n_links", "link_density", "threshold")):
+                same = np.array_equal(a[k], b[k]) if k < 2 else abs(a[k] - b[k]) <= 1e-6
+                if not same:
+                    ctx.fail({"kind": "regenerate-differs", "class": name, "observable": lab},
+                             f"{name}ClimateNetwork(non_local={nl}) after {hist}: {lab} differs from "
+                             f"a fresh network with {knob}={v1}",
+                             {"class": name, "non_local": nl, "history": hist,
+                              "observable": obs.tolist(), "lat": list(map(float, grid.lat_sequence())),
+                              "lon": list(map(float, grid.lon_sequence())),
+                              "observed": np.asarray(a[k]).tolist(),
+                              "fresh": np.asarray(b[k]).tolist()})
+                    break
+
+
 def run(ctx):
     rng = ctx.rng
     quick = ctx.tier == "quick"
@@ -614,6 +691,7 @@ def run(ctx):
             outside.append((rho, ln, k))
         ctx.count("float-index")
     ctx.correspond("threshold_from_link_density and IEEE index evaluation", treqs, timpl)
+    regenerate_histories(ctx, rng, nprng, quick)
     ctx.obligation("IEEE evaluation of int((1-rho)*len) lies in [x-1-eps, x+eps], eps=1e-9 "
                    "(index hypotheses of density_le_request / density_gap_le_ties)",
                    "trusted-base-probe", not outside, repr(outside[:5]))
